@@ -673,7 +673,7 @@ Section Facts.
   (* ---------------------------------------------------------------- a rejection is final *)
   Lemma rejected_no_read h : rejected h = true -> no_read h = true.
   Proof.
-    intros H. apply rejected_iff in H as (_ & _ & [C|C]); unfold no_read; rewrite C; cbn; auto using orb_true_r.
+    intros H. apply rejected_iff in H as (_ & _ & [C|C]); unfold no_read; rewrite C; cbn [orb]; rewrite ?orb_true_r; reflexivity.
   Qed.
 
   Lemma rejected_stays evs : forall h, rejected h = true ->
@@ -718,7 +718,25 @@ Section Facts.
   Proof.
     intros h HR. apply rejected_iff in HR as ([[r site] Hx] & _ & _).
     destruct (run_Aux evs) as (_ & B & _). fold h in B. rewrite Hx in B. inversion B as [|? ? Hs _]; subst.
-    exists r, site. split; [reflexivity|]. unfold site_ok in Hs. cbn in Hs. destruct site; exact Hs.
+    exists r, site. split; [exact Hx|]. unfold site_ok in Hs. cbn in Hs. destruct site; exact Hs.
+  Qed.
+
+  (* ... and it is a well-formed response, provided the version string is a legal field value and
+     the exception raised by the plugin (if that is where the response comes from) is one of the
+     library classes with arguments in the builders' domain *)
+  Theorem rejected_wf evs connect : wf_agent (agent cfg) = true -> let h := runs evs in
+    rejected h = true ->
+    exists r site, hq h = [(r, site)] /\
+      match site with
+      | None => r = BAD_REQUEST_RESPONSE_PKT (agent cfg) /\ wf_response connect r = true
+      | Some e => exn_response (agent cfg) e = Some r /\
+                  (wf_proto_exn connect (agent cfg) e = true -> wf_response connect r = true)
+      end.
+  Proof.
+    intros Ha h HR. destruct (rejected_response evs HR) as (r & site & Hq & Hs).
+    exists r, site. split; [exact Hq|]. destruct site as [e|].
+    - split; [exact Hs|]. intros Hw. eapply exn_response_wf; eauto.
+    - subst r. split; [reflexivity|]. apply (canned_packets_wf _ Ha).
   Qed.
 
   (* waiting / closed without response / client closed: nothing of the handler's making *)
@@ -729,9 +747,120 @@ Section Facts.
     rewrite Hq in A. cbn in A. now rewrite app_nil_r in A.
   Qed.
 
-  (* on_request_complete runs at most once on a connection, and only with a plugin *)
-  Theorem orc_at_most_once evs : orc_calls (runs evs) <= 1.
+  (* ---------------------------------------------------------------- once complete, the request is frozen *)
+  Definition frozen (h : handler) := (request h, plugin h, orc_calls h, parse_calls h).
+
+  Lemma hd_complete h d : is_complete (request h) = true -> frozen (fst (hd h d)) = frozen h.
   Proof.
-    destruct (run_Inv evs) as [HW|[HS|[HR|[HC|HE]]]].
-  Abort.
+    intros Hc. unfold frozen. hd_cases h d.
+    all: try (rewrite Hc in *; discriminate).
+    all: hsimpl; try match goal with |- context [is_nil (hq ?y)] => destruct (is_nil (hq y)) end; hsimpl; congruence.
+  Qed.
+
+  Lemma after_data_frozen h2 r : frozen (after_data h2 r) = frozen h2.
+  Proof.
+    unfold after_data, frozen.
+    destruct r as [[|]|[pe|oe]]; [ | | | destruct oe; [ | | | | | | | | destruct (k =? SSL_WANT_READ) | ] ];
+      cbv zeta; try destruct (has_buffer _); hsimpl; reflexivity.
+  Qed.
+
+  Lemma logical_frozen h1 h : logical h1 = logical h -> frozen h1 = frozen h.
+  Proof. intros H. apply logical_eq in H as (R1 & R2 & _ & _ & R5 & _ & R7 & _). unfold frozen. congruence. Qed.
+
+  Lemma step_complete h ev : is_complete (request h) = true -> frozen (stp h ev) = frozen h.
+  Proof.
+    intros Hc. destruct (no_read h) eqn:Hn.
+    - apply logical_frozen. apply step_no_read, Hn.
+    - unfold no_read in Hn. rewrite !orb_false_iff in Hn. destruct Hn as [[Ht Hm] Hr].
+      destruct (ev_r ev) as [[d| |]|] eqn:Hev.
+      + destruct (step_data h ev d Ht Hm Hr Hev) as (h1 & F1 & _ & _ & _ & _ & _ & E).
+        rewrite E. pose proof (logical_frozen _ _ F1) as Hf.
+        assert (Hc1 : is_complete (request h1) = true).
+        { apply logical_eq in F1 as (R1 & _). now rewrite R1. }
+        pose proof (hd_complete h1 d Hc1) as Hd. destruct (hd h1 d) as [h2 r]. cbn [fst] in Hd.
+        rewrite after_data_frozen. congruence.
+      + destruct (step_gone h ev Ht Hm Hr (or_introl Hev)) as (h1 & F1 & _ & _ & _ & _ & _ & E).
+        rewrite E. cbv zeta. rewrite <- (logical_frozen _ _ F1). unfold frozen.
+        destruct (has_buffer _); hsimpl; reflexivity.
+      + destruct (step_gone h ev Ht Hm Hr (or_intror Hev)) as (h1 & F1 & _ & _ & _ & _ & _ & E).
+        rewrite E. cbv zeta. rewrite <- (logical_frozen _ _ F1). unfold frozen.
+        destruct (has_buffer _); hsimpl; reflexivity.
+      + destruct (step_idle h ev Ht Hm Hr Hev) as (h1 & F1 & _ & _ & _ & _ & _ & E).
+        rewrite E. rewrite <- (logical_frozen _ _ F1). unfold frozen. hsimpl. reflexivity.
+  Qed.
+
+  Lemma fold_complete evs : forall h, is_complete (request h) = true -> frozen (fold_left stp evs h) = frozen h.
+  Proof.
+    induction evs as [|ev evs IH]; intros h Hc; cbn [fold_left]; [reflexivity|].
+    pose proof (step_complete h ev Hc) as Hf.
+    rewrite IH; [exact Hf|]. unfold frozen in Hf. inversion Hf as [[R1 R2 R3 R4]]. now rewrite R1.
+  Qed.
+
+  (* once the first request is complete no later piece is parsed, no second plugin is created and
+     on_request_complete is not invoked again *)
+  Theorem complete_is_frozen evs more : is_complete (request (runs evs)) = true ->
+    frozen (runs (evs ++ more)) = frozen (runs evs).
+  Proof. intros H. rewrite run_app. now apply fold_complete. Qed.
+
+  (* on_request_complete runs at most once on a connection: never before a plugin exists, exactly
+     once afterwards *)
+  Definition orc_ok (h : handler) : Prop :=
+    (is_complete (request h) = false -> plugin h = None) /\
+    (plugin h = None -> orc_calls h = 0) /\ (plugin h <> None -> orc_calls h = 1).
+
+  Lemma hd_orc_ok h d : orc_ok h -> orc_ok (fst (hd h d)).
+  Proof.
+    intros (A & B & C). unfold orc_ok.
+    destruct (is_complete (request h)) eqn:Hc.
+    - pose proof (hd_complete h d Hc) as Hf. unfold frozen in Hf. inversion Hf as [[R1 R2 R3 R4]].
+      rewrite R1, R2, R3, Hc. repeat split; auto; discriminate.
+    - specialize (A eq_refl). specialize (B A). clear C.
+      hd_cases h d.
+      all: try (rewrite Hc in *; discriminate).
+      all: repeat match goal with
+                  | H : negb _ = true |- _ => apply negb_true_iff in H
+                  | H : negb _ = false |- _ => apply negb_false_iff in H
+                  end.
+      all: hsimpl; rewrite ?is_nil_app_cons; hsimpl; try match goal with |- context [is_nil (hq ?y)] => destruct (is_nil (hq y)) end; hsimpl.
+      all: rewrite ?B; repeat split; auto; try congruence; try (intros; discriminate).
+  Qed.
+
+  Lemma after_data_orc_ok h2 r : orc_ok h2 -> orc_ok (after_data h2 r).
+  Proof.
+    intros H. pose proof (after_data_frozen h2 r) as Hf. unfold frozen in Hf. inversion Hf as [[R1 R2 R3 R4]].
+    unfold orc_ok. now rewrite R1, R2, R3.
+  Qed.
+
+  Lemma step_orc_ok h ev : orc_ok h -> orc_ok (stp h ev).
+  Proof.
+    intros H.
+    assert (G : forall h1, frozen h1 = frozen h -> orc_ok h1).
+    { intros h1 Hf. unfold frozen in Hf. inversion Hf as [[R1 R2 R3 R4]]. unfold orc_ok. now rewrite R1, R2, R3. }
+    destruct (no_read h) eqn:Hn.
+    - apply G, logical_frozen, step_no_read, Hn.
+    - unfold no_read in Hn. rewrite !orb_false_iff in Hn. destruct Hn as [[Ht Hm] Hr].
+      destruct (ev_r ev) as [[d| |]|] eqn:Hev.
+      + destruct (step_data h ev d Ht Hm Hr Hev) as (h1 & F1 & _ & _ & _ & _ & _ & E).
+        rewrite E. pose proof (hd_orc_ok h1 d (G _ (logical_frozen _ _ F1))) as Hd.
+        destruct (hd h1 d) as [h2 r]. cbn [fst] in Hd. now apply after_data_orc_ok.
+      + destruct (step_gone h ev Ht Hm Hr (or_introl Hev)) as (h1 & F1 & _ & _ & _ & _ & _ & E).
+        rewrite E. cbv zeta. apply G. rewrite <- (logical_frozen _ _ F1). unfold frozen.
+        destruct (has_buffer _); hsimpl; reflexivity.
+      + destruct (step_gone h ev Ht Hm Hr (or_intror Hev)) as (h1 & F1 & _ & _ & _ & _ & _ & E).
+        rewrite E. cbv zeta. apply G. rewrite <- (logical_frozen _ _ F1). unfold frozen.
+        destruct (has_buffer _); hsimpl; reflexivity.
+      + destruct (step_idle h ev Ht Hm Hr Hev) as (h1 & F1 & _ & _ & _ & _ & _ & E).
+        rewrite E. apply G. rewrite <- (logical_frozen _ _ F1). unfold frozen. hsimpl. reflexivity.
+  Qed.
+
+  Theorem orc_at_most_once evs : let h := runs evs in
+    orc_calls h <= 1 /\ (orc_calls h = 1 <-> plugin h <> None).
+  Proof.
+    assert (H : orc_ok (runs evs)).
+    { unfold run. generalize new_handler, (ltac:(unfold orc_ok; cbn; repeat split; auto; congruence) : orc_ok new_handler).
+      induction evs as [|ev evs IH]; intros h Hh; cbn [fold_left]; [exact Hh|]. apply IH, step_orc_ok, Hh. }
+    cbv zeta. destruct H as (A & B & C). destruct (plugin (runs evs)) as [k|] eqn:Ep.
+    - rewrite C by discriminate. split; [lia|]. split; [discriminate|reflexivity].
+    - rewrite B by reflexivity. split; [lia|]. split; [discriminate|congruence].
+  Qed.
 End Facts.
